@@ -331,7 +331,8 @@ def gen_base(prop, seed, tier):
            'discriminant': r.choice(['maxabs', 'nanmax', 'abssum', 'nansum', 'opposite_min']),
            'classes': None, 'step': None}
     if kind in ('anova', 'nicv', 'snr', 'mia'):
-        scn['classes'] = r.choice([None, list(range(9)), list(range(9)), [8, 7, 6, 5, 4, 3, 2, 1, 0], [0, 2, 4, 6, 8, 1], list(range(12))])
+        scn['classes'] = r.choice([None, list(range(9)), list(range(9)), [8, 7, 6, 5, 4, 3, 2, 1, 0], [0, 2, 4, 6, 8, 1], list(range(12)),
+                                   [0, 2, 1, 3, 4, 6, 5, 7, 8], [0, 4, 8], [0, 3, 8], [0, 5, 1, 8]])     # lists sharing length and end points
     wr = rng.stream(seed, 'wide')
     if kind in ('anova', 'nicv', 'snr', 'mia') and wr.random() < 0.12:
         # class values wider than a byte with the Value model (explicit classes: permuted, with an extra unused value, or leaving one undeclared)
